@@ -436,6 +436,17 @@ type CallAssert struct {
 }
 
 // Protect: every read / write of the struct field must satisfy the given condition over the function's ghosts.
+// MapWriters: "mapwriters [tags] T.f only F G ..." - in the declaring package, entries of the map held in field f of T
+// are stored or deleted by the named functions alone (the functions that maintain what contracts say about the map).
+type MapWriters struct {
+	Tags        []string
+	Type, Field string
+	Allowed     []string
+	Pkg, Src    string
+	File        string
+	Line        int
+}
+
 type Protect struct {
 	Type, Field string // Field: a name, "*" (every field) or "*!A!B" (every field but A and B)
 	Read, Write *Clause
@@ -519,6 +530,7 @@ type ContractSet struct {
 	UFuncs map[string]*UFunc
 	Axioms []Clause
 	Protects []Protect
+	MapWriters []MapWriters
 	Groups map[string][]string // named clause groups (raw clause lines), expanded by 'include'
 	Lemmas []Clause // proved standalone; usable like axioms by functions that 'uses' one of their tags
 	Preds map[string]*Pred
@@ -531,7 +543,7 @@ func NewContractSet() *ContractSet {
 }
 
 var clauseKeywords = map[string]bool{"pred": true, "func": true, "requires": true, "ensures": true, "loop": true,
-	"modifies": true, "ufunc": true, "axiom": true, "lemma": true, "noframe": true, "owned": true, "stateless": true, "opaque": true, "reveal": true, "uses": true, "protect": true, "protocol-only": true, "deterministic": true, "concurrent": true, "bag": true, "group": true, "include": true, "end": true, "trusted": true, "pure": true, "safe": true, "decreases": true, "let": true, "ghost": true, "init": true, "call": true, "mapupdate": true, "return-ensures": true, "package": true}
+	"modifies": true, "ufunc": true, "axiom": true, "lemma": true, "noframe": true, "owned": true, "stateless": true, "opaque": true, "reveal": true, "uses": true, "protect": true, "protocol-only": true, "deterministic": true, "concurrent": true, "bag": true, "group": true, "include": true, "end": true, "trusted": true, "pure": true, "safe": true, "decreases": true, "let": true, "ghost": true, "init": true, "call": true, "mapupdate": true, "return-ensures": true, "package": true, "mapwriters": true}
 
 // ParseContractFile reads the //@ lines of one file.
 func (cs *ContractSet) ParseContractFile(path, pkgPath string) error {
@@ -689,6 +701,24 @@ func (cs *ContractSet) ParseContractFile(path, pkgPath string) error {
 				uf.Params = append(uf.Params, Param{f[0], strings.Join(f[1:], "")})
 			}
 			cs.UFuncs[uf.Name] = uf
+		case "mapwriters":
+			mw := MapWriters{Pkg: pkgPath, Src: rest, File: path, Line: it.n}
+			r := strings.TrimSpace(rest)
+			for strings.HasPrefix(r, "[") {
+				k := strings.Index(r, "]")
+				if k < 0 {
+					return fmt.Errorf("%s:%d: mapwriters: unterminated tag", path, it.n)
+				}
+				mw.Tags = append(mw.Tags, r[1:k])
+				r = strings.TrimSpace(r[k+1:])
+			}
+			fs := strings.Fields(r)
+			if len(fs) < 3 || fs[1] != "only" || !strings.Contains(fs[0], ".") {
+				return fmt.Errorf("%s:%d: mapwriters [tags] T.field only F G ...", path, it.n)
+			}
+			d := strings.LastIndex(fs[0], ".")
+			mw.Type, mw.Field, mw.Allowed = fs[0][:d], fs[0][d+1:], fs[2:]
+			cs.MapWriters = append(cs.MapWriters, mw)
 		case "protect":
 			// protect T.field read EXPR write EXPR
 			ri := strings.Index(rest, " read ")
